@@ -111,7 +111,15 @@ class Pins:
         pv: dict[str, frozenset[str]] = {}
         for key, val in (vals or {}).items():
             pv[norm(key)] = frozenset([val]) if isinstance(val, str) else frozenset(val)
-        return Pins(pv, {norm(k): v for k, v in (facts or {}).items()}, entry)
+        pf: dict[str, bool] = {}
+        for key, val in (facts or {}).items():
+            tree = _canon(ast.parse(key, mode="eval").body)
+            if isinstance(tree, ast.Compare) and len(tree.ops) == 1 and isinstance(tree.ops[0], (ast.Lt, ast.LtE, ast.Gt, ast.GtE)):
+                lkey, flip = Interp._lt_key(tree.ops[0], tree.left, tree.comparators[0])  # ordering facts are stored as strict `<` atoms
+                pf[lkey] = val != flip
+            else:
+                pf[norm(key)] = val
+        return Pins(pv, pf, entry)
 
 
 def _sort_ops(tree: ast.expr) -> ast.expr:
@@ -1122,6 +1130,21 @@ class Interp:
                         return bool({ast.Lt: lv < rv, ast.LtE: lv <= rv, ast.Gt: lv > rv, ast.GtE: lv >= rv}[type(op)])
                     except (ValueError, TypeError, SyntaxError):
                         return None
+                # one side has a known finite set of numbers
+                if (lt is None) != (rt is None):
+                    other = left if lt is None else right
+                    vals = self._vals(unparse(other), st)
+                    if vals:
+                        try:
+                            c = ast.literal_eval(rt if lt is None else lt)  # type: ignore[arg-type]
+                            nums = [ast.literal_eval(v) for v in vals]
+                            if isinstance(c, (int, float)) and all(isinstance(n, (int, float)) and not isinstance(n, bool) for n in nums):
+                                pyop = {ast.Lt: lambda a, b: a < b, ast.LtE: lambda a, b: a <= b, ast.Gt: lambda a, b: a > b, ast.GtE: lambda a, b: a >= b}[type(op)]
+                                outs = {bool(pyop(n, c) if lt is None else pyop(c, n)) for n in nums}
+                                if len(outs) == 1:
+                                    return outs.pop()
+                        except (ValueError, TypeError, SyntaxError):
+                            pass
                 key, flip = self._lt_key(op, left, right)
                 res = self._fact(key, st)
                 if res is None:
